@@ -29,6 +29,7 @@ type AbmfStep struct {
 	Sid    string `json:"sid"`
 	Amt    []int  `json:"amt"`
 	NoUnit bool   `json:"nounit"`
+	Form   string `json:"form"` // "" / "plain" | "e164" (Subscription-Id-Type E.164) | "both" (the other unit AVP too)
 }
 
 type AbmfBeh struct {
@@ -113,7 +114,7 @@ func RunAbmf(env *Env, prefix, in, out string) error {
 						DestinationRealm: realm, DestinationHost: host,
 						EventTimestamp: datatype.Time(time.Now()), UserName: "CHF",
 						SubscriptionId: &charging_datatype.SubscriptionId{
-							SubscriptionIdType: charging_datatype.END_USER_IMSI,
+							SubscriptionIdType: map[bool]charging_datatype.SubscriptionIdType{true: charging_datatype.END_USER_E164, false: charging_datatype.END_USER_IMSI}[s.Form == "e164"],
 							SubscriptionIdData: datatype.UTF8String(supi(u)[5:]),
 						},
 						CcRequestNumber: datatype.Unsigned32(s.Num),
@@ -125,6 +126,13 @@ func RunAbmf(env *Env, prefix, in, out string) error {
 							mscc.UsedServiceUnit = &charging_datatype.UsedServiceUnit{CCTotalOctets: datatype.Unsigned64(amt.Uint64())}
 						} else {
 							mscc.RequestedServiceUnit = &charging_datatype.RequestedServiceUnit{CCTotalOctets: datatype.Unsigned64(amt.Uint64())}
+						}
+						if s.Form == "both" {
+							if mscc.UsedServiceUnit == nil {
+								mscc.UsedServiceUnit = &charging_datatype.UsedServiceUnit{CCTotalOctets: 5}
+							} else {
+								mscc.RequestedServiceUnit = &charging_datatype.RequestedServiceUnit{CCTotalOctets: 5}
+							}
 						}
 					}
 					ccr.MultipleServicesCreditControl = mscc
@@ -138,7 +146,8 @@ func RunAbmf(env *Env, prefix, in, out string) error {
 			}
 			emit(map[string]any{
 				"trace": b.ID, "seq": i + 1, "action": "ccr",
-				"args": map[string]any{"key": s.Key, "action": s.Action, "type": s.Type, "num": s.Num, "sid": s.Sid, "amt": s.Amt},
+				"args": map[string]any{"key": s.Key, "action": s.Action, "type": s.Type, "num": s.Num, "sid": s.Sid, "amt": s.Amt,
+					"form": map[bool]string{true: "plain", false: s.Form}[s.Form == ""]},
 				"result": res, "state": dbState(),
 			})
 		}
